@@ -4,3 +4,4 @@ from vlib.c11_sched import ASSUMPTIONS, RULE_SCHED as RULE, items, work  # noqa:
 PROPERTY = "C11"
 LEVEL = "exploration"
 USES_JAX = True
+BUDGET_S = {"quick": 900, "thorough": 3 * 3600}
